@@ -631,6 +631,19 @@ def parent_if_test(node):
     return None
 
 
+def _update_keys(st):
+    """keys written by `<dict>.update(k=v, ..)` / `<dict>.update({'k': v, ..})` in statement st"""
+    out = []
+    if isinstance(st, ast.Expr) and isinstance(st.value, ast.Call) and isinstance(
+            st.value.func, ast.Attribute) and st.value.func.attr == 'update':
+        c = st.value
+        out += [k.arg for k in c.keywords if k.arg is not None]
+        for a in c.args:
+            if isinstance(a, ast.Dict):
+                out += [k.value for k in a.keys if isinstance(k, ast.Constant)]
+    return out
+
+
 def check_resume_keys(prog, rep):
     """Unconditional reads of resume_data keys in the algorithm classes must be written
     unconditionally by get_resume_data along the MRO."""
@@ -652,6 +665,8 @@ def check_resume_keys(prog, rep):
                     for k in st.value.keys:
                         if isinstance(k, ast.Constant):
                             written.setdefault(k.value, True)
+                for k in _update_keys(st):
+                    written.setdefault(k, st in g.body)
         # unconditional reads in methods defined in this class
         for name, f in ci.methods.items():
             for n in body_nodes(f):
@@ -1345,6 +1360,9 @@ def check_resume_accumulators(prog, rep):
                         if isinstance(t, ast.Subscript) and isinstance(t.slice, ast.Constant) and \
                                 isinstance(t.value, ast.Name):
                             saved.add(t.slice.value)
+                    if isinstance(st.value, ast.Dict):
+                        saved.update(k.value for k in st.value.keys if isinstance(k, ast.Constant))
+                saved.update(_update_keys(st))
         if not has:
             continue
         for name, f in ci.methods.items():
